@@ -21,5 +21,10 @@ def main(run):
     if want(run, 'P') or want(run, 'T'):
       with anchored(run, 'C17/P'):
         deductive(run)
+    if want(run, 'F'):
+      with anchored(run, 'C17/F'):
+        # fingerprints are functions of the current structure: no memoised value they read survives an edit it depends on (engine F, keys read by these observables)
+        from checks.fpart import run_F
+        run_F(run, entry_points=['linear_fingerprint', 'morgan_fingerprint', 'linear_hash_set', 'morgan_hash_set', 'linear_bit_set', 'morgan_bit_set', 'linear_hash_smiles', 'morgan_hash_smiles', '_atom_identifiers', '_fragments', '_morgan_hash_dict'])
     bounded_part(run, 'C17')
     return FINISH
